@@ -23,10 +23,12 @@ Words == UNION {[1..n -> Alphabet] : n \in 0..MaxLen}
 ClassWords == LenClasses \X (DOMAIN C0) \X (DOMAIN C1) \X (DOMAIN C2)
 
 ValueClasses ==
-    [Chunk                  |-> {"empty", "one", "small", "large"},
-     ChunkWithPayment       |-> {"empty", "one", "small", "large"},
-     Scratchpad             |-> {"fresh", "signed", "signedbig", "extreme"},
-     ScratchpadWithPayment  |-> {"fresh", "signed", "signedbig", "extreme"},
+    \* b255 .. b65536: content lengths either side of the bin8/bin16/bin32 boundaries; mib: 1 MiB and more;
+    \* cnt2p32 / cntmax: scratchpad counter 2^32 / 2^64-1 (values only the wire can carry)
+    [Chunk                  |-> {"empty", "one", "small", "large", "b255", "b256", "b65535", "b65536", "mib"},
+     ChunkWithPayment       |-> {"empty", "one", "small", "large", "b255", "b256", "b65535", "b65536", "mib"},
+     Scratchpad             |-> {"fresh", "signed", "signedbig", "extreme", "cnt2p32", "cntmax"},
+     ScratchpadWithPayment  |-> {"fresh", "signed", "signedbig", "extreme", "cnt2p32", "cntmax"},
      Transaction            |-> {"vec0", "vec1bare", "vec1rich", "vec3"},
      TransactionWithPayment |-> {"bare", "rich"},
      Register               |-> {"noops", "oneop", "manyops", "anyone"},
